@@ -95,29 +95,38 @@ theorem ReluCfg.clamp_of_qclip {c : ReluCfg} (h : c.qclip = true) : c.clamp = no
 theorem ReluCfg.clamp_of_no_upper {c : ReluCfg} (h : c.upper = none) : c.clamp = none := by
   unfold ReluCfg.clamp; rw [h]; split <;> rfl
 
-/-- `relu_upper_bound = 0.0` is falsy: no clamp -/
-theorem ReluCfg.clamp_of_zero {c : ReluCfg} (h : c.upper = some 0) : c.clamp = none := by
-  unfold ReluCfg.clamp; rw [h]; split <;> simp
+/-- every given bound clamps (since the fix of C02-relu-upper-zero also `relu_upper_bound = 0.0`) -/
+theorem ReluCfg.clamp_of_upper {c : ReluCfg} {u : ℚ} (hq : c.qclip = false) (h : c.upper = some u) :
+    c.clamp = some u := by
+  unfold ReluCfg.clamp; rw [hq, h]; rfl
 
 theorem ReluCfg.clamp_some {c : ReluCfg} {u : ℚ} (h : c.clamp = some u) :
-    c.qclip = false ∧ c.upper = some u ∧ u ≠ 0 := by
+    c.qclip = false ∧ c.upper = some u := by
   unfold ReluCfg.clamp at h
   split at h
   · cases h
   · rename_i hq
-    split at h
-    · cases h
-    · rename_i u' hu
-      split at h
-      · cases h
-      · rename_i hne
-        simp only [Option.some.injEq] at h
-        subst h
-        exact ⟨by simpa using hq, hu, hne⟩
+    exact ⟨by simpa using hq, h⟩
 
 theorem qreluU_of_clamp_none (t : Tie) {c : ReluCfg} (h : c.clamp = none) (x : ℚ) :
     qreluU t c x = qrelu t c x := by
   unfold qreluU clampTo; rw [h]
+
+/-- the bound `0.0` of a plain ReLU (clamps since the fix of C02-relu-upper-zero): every output is `0` -/
+theorem qreluU_zero_bound (t : Tie) (c : ReluCfg) (h : c.slopeLog = none) (hq : c.qclip = false)
+    (hu : c.upper = some 0) (x : ℚ) : qreluU t c x = 0 := by
+  obtain ⟨k, h1, _, hk⟩ := sq_lattice t c.step 1 x c.zero_le_hi
+  rw [← qrelu_plain_eq_sq t c h, one_mul] at hk
+  unfold qreluU
+  rw [ReluCfg.clamp_of_upper hq hu]
+  unfold clampTo
+  simp only
+  split
+  · rename_i hle
+    rw [hk] at hle ⊢
+    have : (0 : ℚ) ≤ (k : ℚ) := by exact_mod_cast h1
+    exact le_antisymm hle (mul_nonneg this c.step_pos.le)
+  · rfl
 
 /-- plain ReLU with an on-grid (or no) active upper bound stays on the lattice -/
 theorem qreluU_plain_lattice (t : Tie) (c : ReluCfg) (h : c.slopeLog = none)
